@@ -40,6 +40,7 @@ def run(tier):
         H.borrow_rule(prog, rep)       # nothing of the caller's request description is read after http_request() returns, except the body
         from . import c07, c14
         c07.orphan_rule(prog, rep)     # "leaks nothing": the request's writer must not orphan a queued buffer
+        c07.reserve_room_rule(prog, rep)   # "never writes outside its own buffers": the space a reservation hands out is inside its buffer
         c07.writer(prog, rep)          # the request goes out through the buffered writer: its failure/in-flight discipline (F1-F3, SLOT; shared with C07)
         # "leaks nothing", "never reads or writes outside its own buffers": the allocation discipline of the anchored units
         # (acquisitions tested before use, released on every failure path, realloc never over its argument; rules shared with C14)
@@ -54,6 +55,12 @@ def run(tier):
         c06.closed_fd_rule(wprog, rep)
         c06.close_registered_rule(wprog, rep)
         c06.borrow_ref_rule(wprog, rep, list(ANCHORED))
+        # "exactly one invocation of the caller's callback": never from inside the call that creates the request, at any layer under it
+        # (a synchronous completion from network_connect frees the HTTP request while http_request() is still filling it in)
+        ns = c06.sync_callback_rule(wprog, rep, "network/network_connect.c", (c06.UNITS["network/network_connect.c"][2],))
+        ns += c06.sync_callback_rule(wprog, rep, "http/http.c", ("http_request", "http_request2"))
+        if ns < 2:
+            raise cdb.AnalysisBroken("N7: the creating functions of network_connect.c / http.c were not found")
         # a completed operation's handle is dropped before the failure path can cancel through it (shared with C06/C07)
         if c06.handle_clear_rule(wprog, rep, list(ANCHORED)) < 5:
             raise cdb.AnalysisBroken("SLOT: fewer than 5 (handle field, completion callback) pairs found in the anchored units")
